@@ -148,6 +148,9 @@ func (s *Session) Wake() {
 	if s.wake == nil || !s.IsClient() || s.state.WakeClosed() {
 		return
 	}
+	// shutdown may close the channel between the check above and the send, this
+	// is then the same as finding it closed.
+	defer func() { recover() }()
 	select {
 	case s.wake <- wake:
 	default:
@@ -483,6 +486,9 @@ func (s *Session) queue(n *com.Packet) {
 	if cout.Enabled {
 		s.log.Trace(`[%s] Adding Packet "%s" to queue.`, s.ID, n)
 	}
+	// shutdown may close the channel between the check above and the send, this
+	// is then the same as finding it closed.
+	defer func() { recover() }()
 	if s.chn != nil {
 		select {
 		case s.chn <- n:
